@@ -318,7 +318,7 @@ pub fn run(ctx: &mut Ctx) {
         }
         let mut rng = ctx.case_rng("random", i);
         let f = gen_or7(&mut rng, &lits, 2);
-        let rec = gen_record(&mut rng, &pool);
+        let rec = if rng.chance(1, 40) { MDict::new() } else { gen_record(&mut rng, &pool) };
         ctx.eval("random", crate::prng::mix(&[filter_fp(&f), dict_fp(&rec)]), true);
         if ctx.wants_sample("random") {
             let mut r = Rng::new(1);
@@ -354,7 +354,14 @@ pub fn run(ctx: &mut Ctx) {
         }
         let mut rng = ctx.case_rng("grid", i);
         let f = gen_or7(&mut rng, &lits, 1);
-        let rows_m: Vec<MDict> = (0..rng.below(8)).map(|_| gen_record(&mut rng, &pool)).collect();
+        // incl. empty rows and rows with a single tag: filters that hold by absence must still select them
+        let rows_m: Vec<MDict> = (0..rng.below(8))
+            .map(|_| match rng.below(6) {
+                0 => MDict::new(),
+                1 => [(rng.pick::<&str>(&TAGS).to_string(), rng.pick(&pool).clone())].into_iter().collect(),
+                _ => gen_record(&mut rng, &pool),
+            })
+            .collect();
         let exp: Vec<Tri> = rows_m.iter().map(|r| eval_or(&f, r, &NoRefs)).collect();
         ctx.eval("grid", crate::prng::mix(&[filter_fp(&f), rows_m.iter().fold(1, |a, r| crate::prng::mix(&[a, dict_fp(r)]))]), !rows_m.is_empty());
         if exp.iter().any(|e| e.is_none()) {
